@@ -123,6 +123,10 @@ def build_all(desc):
 def apply_edit_desc(desc, edit):
     """the description after the edit (insert a 2-port in series behind an exposed pin)"""
     d2 = copy.deepcopy(desc)
+    if edit.get("kind") == "expose_more":
+        # a sub-solver exposes one more pin AFTER it was placed: its placements do not own that pin, nothing
+        # changes for the circuits that contain them
+        return d2
     d = d2["defs"][edit["def"]]
     c, port, name = d["expo"][edit["expo"]]
     d["children"].append({"leaf": edit["comp"]})
@@ -135,6 +139,10 @@ def apply_edit_desc(desc, edit):
 def apply_edit_py(desc, built, edit):
     S, sts = built[edit["def"]]
     d = desc["defs"][edit["def"]]
+    if edit.get("kind") == "expose_more":
+        c, port = edit["port"]
+        S.map_pins({"extra_pin": sts[c].pin[port_name(desc, d["children"][c], port)]})
+        return
     c, port, name = d["expo"][edit["expo"]]
     st = Structure(model=netlib.comp_model(edit["comp"]))
     S.add_structure(st)
